@@ -36,7 +36,7 @@ class Budget(PathAbort):
 
 
 class PathCtx:
-    def __init__(self, prefix, timeout_ms=10000):
+    def __init__(self, prefix, timeout_ms=30000):
         self.prefix = list(prefix)
         self.decisions = []
         self.pending = []  # alternative prefixes discovered on this path
@@ -179,7 +179,7 @@ class Result:
         self.check_labels = {}
 
 
-def explore(run, max_paths=20000, timeout_ms=10000, stop_at_first_failure_per_label=True, time_budget_s=None):
+def explore(run, max_paths=20000, timeout_ms=30000, stop_at_first_failure_per_label=True, time_budget_s=None):
     """run(ctx) executes the code under analysis once on the path selected by ctx.prefix."""
     res = Result()
     work = [[]]
